@@ -52,3 +52,11 @@ def _union_unmarshal_lossy(prop, v):
     return (v.get("pos_desc") == "union" and v.get("kind") in ("union-fixpoint-broken", "fixpoint-broken")
             and v.get("m_owner") is True and v.get("um_reproduces") is False
             and v.get("um_member") not in (None, v.get("m_member")))
+
+
+# ---- C04 -----------------------------------------------------------------------------------
+
+@classifier("zero-duration-emitted-as-PT")
+def _zero_pt(prop, v):
+    """timedelta(0) is written as 'PT' (no component), which is not well-formed ISO-8601; tests/unit/test_codec.py pins it."""
+    return v.get("kind") == "iso-not-wellformed" and v.get("text") == "PT" and v.get("value") == "datetime.timedelta(0)"
